@@ -1,7 +1,7 @@
 (* Properties/C15.v — every regressor returns the least-squares optimum and its own fit statistics.
    Statements only; every proof is `exact` of a lemma of Proofs/Regress.v.  All statements are about the
    R instance of the model (exact arithmetic); rounding (accuracy up to the moment-matrix condition, the
-   contraction bound of gradient descent in floating point) is measured by the correspondence check and
+   rounding term added to the proved contraction bound of gradient descent) is measured by the correspondence check and
    the exact oracle.
    Spec vocabulary (Proofs/Regress.v):  Rpeval cs t = Σ_k cs_k t^k;  SSE cs x y = Σ_i (y_i - Rpeval cs x_i)²;
    SST y = Σ_i (y_i - mean y)²;  Nres j cs x y = Σ_i x_i^j (y_i - Rpeval cs x_i)  (j-th normal equation).
@@ -123,7 +123,7 @@ Print Assumptions c15_gd_iterates.
 
 (* ... each step maps the error e = w - (a, b) around a normal-equation solution to (I - alpha H) e,
    H = (1/n) [[n, Σx], [Σx, Σx²]], and (a, b) is a fixed point of the step.
-   (The norm bound rho^k |e0| — eigenvalues of H — is not proved: c15_gd_bound is checked by the oracle.) *)
+   (The norm bound rho^k |e0| is c15_gd_contraction below; only its floating-point rounding term is left to the oracle.) *)
 Theorem c15_gd_recurrence : forall (alpha : R) (x y : list R) (a b wy wx : R),
   length x = length y -> INR (length y) <> 0 ->
   Nres 0 [a; b] x y = 0 -> Nres 1 [a; b] x y = 0 ->
@@ -142,6 +142,86 @@ Check c15_gd_recurrence : forall (alpha : R) (x y : list R) (a b wy wx : R),
   snd w' - b = (wx - b) - alpha * (Rlsum x / n * (wy - a) + SumL (fun t => t ^ 2) x / n * (wx - b)) /\
   gd_step alpha n x y (a, b) = (a, b).
 Print Assumptions c15_gd_recurrence.
+
+(* contraction: gd_iter k = k passes of the model's loop, err2 w a b = squared Euclidean distance of w from (a, b).
+   If rho dominates both eigenvalues of M = I - alpha H in absolute value (stated on the characteristic polynomial,
+   no square roots), the error around a normal-equation solution shrinks by rho per step. *)
+Theorem c15_gd_contraction : forall (alpha : R) (x y : list R) (a b rho : R) (w0 : R * R) (k : nat),
+  length x = length y -> INR (length y) <> 0 ->
+  Nres 0 [a; b] x y = 0 -> Nres 1 [a; b] x y = 0 ->
+  let n := INR (length y) in
+  let M00 := 1 - alpha in
+  let M01 := - (alpha * (Rlsum x / n)) in
+  let M11 := 1 - alpha * (SumL (fun t => t ^ 2) x / n) in
+  (forall mu, mu * mu - (M00 + M11) * mu + (M00 * M11 - M01 * M01) = 0 -> mu * mu <= rho * rho) ->
+  err2 (gd_iter k alpha x y w0) a b <= rho ^ (2 * k) * err2 w0 a b.
+Proof. exact Proofs.Regress.c15_gd_contraction. Qed.
+Check c15_gd_contraction : forall (alpha : R) (x y : list R) (a b rho : R) (w0 : R * R) (k : nat),
+  length x = length y -> INR (length y) <> 0 ->
+  Nres 0 [a; b] x y = 0 -> Nres 1 [a; b] x y = 0 ->
+  let n := INR (length y) in
+  let M00 := 1 - alpha in
+  let M01 := - (alpha * (Rlsum x / n)) in
+  let M11 := 1 - alpha * (SumL (fun t => t ^ 2) x / n) in
+  (forall mu, mu * mu - (M00 + M11) * mu + (M00 * M11 - M01 * M01) = 0 -> mu * mu <= rho * rho) ->
+  err2 (gd_iter k alpha x y w0) a b <= rho ^ (2 * k) * err2 w0 a b.
+Print Assumptions c15_gd_contraction.
+
+(* a stable step (0 < alpha*lambda < 2 for every eigenvalue lambda of H = [[1, h01], [h01, h11]]) yields such a rho < 1 *)
+Theorem c15_gd_stable_step : forall (alpha h01 h11 : R), 0 < alpha ->
+  (forall lam, lam * lam - (1 + h11) * lam + (1 * h11 - h01 * h01) = 0 -> 0 < lam /\ alpha * lam < 2) ->
+  exists rho, 0 <= rho < 1 /\
+    forall mu, mu * mu - ((1 - alpha) + (1 - alpha * h11)) * mu
+               + ((1 - alpha) * (1 - alpha * h11) - (- (alpha * h01)) * (- (alpha * h01))) = 0 ->
+               mu * mu <= rho * rho.
+Proof. exact Proofs.Regress.c15_gd_stable_step. Qed.
+Check c15_gd_stable_step : forall (alpha h01 h11 : R), 0 < alpha ->
+  (forall lam, lam * lam - (1 + h11) * lam + (1 * h11 - h01 * h01) = 0 -> 0 < lam /\ alpha * lam < 2) ->
+  exists rho, 0 <= rho < 1 /\
+    forall mu, mu * mu - ((1 - alpha) + (1 - alpha * h11)) * mu
+               + ((1 - alpha) * (1 - alpha * h11) - (- (alpha * h01)) * (- (alpha * h01))) = 0 ->
+               mu * mu <= rho * rho.
+Print Assumptions c15_gd_stable_step.
+
+(* with rho < 1 the coefficients RETURNED BY THE FIT converge to the least-squares optimum as steps grow *)
+Theorem c15_gd_converges : forall (alpha : R) (x y : list R) (a b rho : R),
+  length x = length y -> INR (length y) <> 0 ->
+  Nres 0 [a; b] x y = 0 -> Nres 1 [a; b] x y = 0 ->
+  let n := INR (length y) in
+  let M00 := 1 - alpha in
+  let M01 := - (alpha * (Rlsum x / n)) in
+  let M11 := 1 - alpha * (SumL (fun t => t ^ 2) x / n) in
+  0 <= rho < 1 ->
+  (forall mu, mu * mu - (M00 + M11) * mu + (M00 * M11 - M01 * M01) = 0 -> mu * mu <= rho * rho) ->
+  forall eps, 0 < eps -> exists K, forall k, (K <= k)%nat ->
+    let c := coefs (gd_fit k alpha x y) in
+    (nth 0 c 0 - a) * (nth 0 c 0 - a) + (nth 1 c 0 - b) * (nth 1 c 0 - b) < eps.
+Proof. exact Proofs.Regress.c15_gd_converges. Qed.
+Check c15_gd_converges : forall (alpha : R) (x y : list R) (a b rho : R),
+  length x = length y -> INR (length y) <> 0 ->
+  Nres 0 [a; b] x y = 0 -> Nres 1 [a; b] x y = 0 ->
+  let n := INR (length y) in
+  let M00 := 1 - alpha in
+  let M01 := - (alpha * (Rlsum x / n)) in
+  let M11 := 1 - alpha * (SumL (fun t => t ^ 2) x / n) in
+  0 <= rho < 1 ->
+  (forall mu, mu * mu - (M00 + M11) * mu + (M00 * M11 - M01 * M01) = 0 -> mu * mu <= rho * rho) ->
+  forall eps, 0 < eps -> exists K, forall k, (K <= k)%nat ->
+    let c := coefs (gd_fit k alpha x y) in
+    (nth 0 c 0 - a) * (nth 0 c 0 - a) + (nth 1 c 0 - b) * (nth 1 c 0 - b) < eps.
+Print Assumptions c15_gd_converges.
+
+(* non-vacuity of the contraction hypotheses: x = [-1,0,1], y = [1,3,5], optimum (3, 2), alpha = 1/2, rho = 2/3 *)
+Example c15_gd_nonvacuous :
+  length [-1; 0; 1] = length [1; 3; 5] /\ INR (length [1; 3; 5]) <> 0 /\
+  Nres 0 [3; 2] [-1; 0; 1] [1; 3; 5] = 0 /\ Nres 1 [3; 2] [-1; 0; 1] [1; 3; 5] = 0 /\
+  0 <= 2 / 3 < 1 /\
+  (let n := INR (length [1; 3; 5]) in
+   let M00 := 1 - 1 / 2 in
+   let M01 := - (1 / 2 * (Rlsum [-1; 0; 1] / n)) in
+   let M11 := 1 - 1 / 2 * (SumL (fun t => t ^ 2) [-1; 0; 1] / n) in
+   forall mu, mu * mu - (M00 + M11) * mu + (M00 * M11 - M01 * M01) = 0 -> mu * mu <= 2 / 3 * (2 / 3)).
+Proof. exact Proofs.Regress.ex_gd_hyp. Qed.
 
 (* non-vacuity: the hypotheses of the line-fit theorems are met by x = [0,1,2], y = [1,3,5] *)
 Example c15_nonvacuous : length [0; 1; 2] = length [1; 3; 5] /\
